@@ -14,11 +14,15 @@
 -/
 import Atomman.C12
 import Proofs.C12_Lemmas
+import Proofs.C12_Cov
 import Mathlib.Tactic.Ring
 import Mathlib.Tactic.LinearCombination
 import Mathlib.Tactic.FieldSimp
 import Mathlib.Tactic.FinCases
 import Mathlib.Tactic.NormNum
+import Mathlib.Tactic.Positivity
+import Mathlib.Tactic.Linarith
+import Mathlib.Algebra.Order.Field.Basic
 import Mathlib.Algebra.Field.Basic
 import Mathlib.Algebra.CharZero.Defs
 import Mathlib.Algebra.Order.Ring.Rat
@@ -200,6 +204,117 @@ theorem K_real_partial (μ : Fin 6 → Mode (Cx K)) (hp : ConjPairs μ) (i j : F
 
 end real
 
+/-! ### covariance: rotating the whole problem rotates every result
+
+  `R` is any matrix with `RᵀR = 1` (`Orth R`); the rotated problem is `rotSetup R s` (stiffness
+  `C'_ijkl = R_ig R_jh R_km R_ln C_ghmn` exactly as `ElasticConstants.transform` computes it, `m' = Rm`, `n' = Rn`,
+  `b' = Rb`), the eigen-solver output of the rotated problem is `rotMode R μₐ` (same `pₐ`, rotated `Aₐ`, `Lₐ`). -/
+section covariance
+variable {R : Mat F}
+
+/-- the eigen equation is covariant: the residual `N'v' − p v'` of the rotated problem is the rotated residual, so
+    `(p, RA, RL)` is an eigen-pair of the rotated `N` whenever `(p, A, L)` is one of `N`
+    (`nnInv' = R nnInv Rᵀ`; see `inverse_covariant`). -/
+theorem eigen_covariant (h : Orth R) (s : Setup F) (nnInv : Mat F) (μ : Mode F) :
+    (∀ i, eigResTop (rotSetup R s) (rotMat R nnInv) (rotMode R μ) i = rotVec R (eigResTop s nnInv μ) i)
+    ∧ (∀ i, eigResBot (rotSetup R s) (rotMat R nnInv) (rotMode R μ) i = rotVec R (eigResBot s nnInv μ) i)
+    ∧ ((∀ i, eigResTop s nnInv μ i = 0) → (∀ i, eigResBot s nnInv μ i = 0) →
+        (∀ i, eigResTop (rotSetup R s) (rotMat R nnInv) (rotMode R μ) i = 0)
+        ∧ ∀ i, eigResBot (rotSetup R s) (rotMat R nnInv) (rotMode R μ) i = 0) := by
+  refine ⟨eigResTop_rot h s nnInv μ, eigResBot_rot h s nnInv μ, fun ht hb => ⟨fun i => ?_, fun i => ?_⟩⟩
+  · rw [eigResTop_rot h s nnInv μ i]; simp only [rotVec, matVec, sum3, ht]; ring
+  · rw [eigResBot_rot h s nnInv μ i]; simp only [rotVec, matVec, sum3, hb]; ring
+
+/-- `(R nn Rᵀ)(R nnInv Rᵀ) = 1`; this is the one place where `R Rᵀ = 1` is needed besides `RᵀR = 1`. -/
+theorem inverse_covariant (h : Orth R) (h' : ∀ i j, (sum3 fun g => R i g * R j g) = kron i j)
+    (s : Setup F) (nnInv : Mat F) (hinv : ∀ i j, matMul s.nn nnInv i j = kron i j) (i j : Fin 3) :
+    matMul (rotSetup R s).nn (rotMat R nnInv) i j = kron i j := by
+  obtain ⟨h00, h11, h22, h01, h02, h12⟩ := orth_entries h
+  have e : matMul (rotSetup R s).nn (rotMat R nnInv) i j = rotMat R (matMul s.nn nnInv) i j := by
+    simp only [matMul, nn_rot h s, rotMat, sum3]
+    linear_combination
+      (R i 0 * R j 0 * (s.nn 0 0 * nnInv 0 0) + R i 0 * R j 1 * (s.nn 0 0 * nnInv 0 1) + R i 0 * R j 2 * (s.nn 0 0 * nnInv 0 2)
+        + R i 1 * R j 0 * (s.nn 1 0 * nnInv 0 0) + R i 1 * R j 1 * (s.nn 1 0 * nnInv 0 1) + R i 1 * R j 2 * (s.nn 1 0 * nnInv 0 2)
+        + R i 2 * R j 0 * (s.nn 2 0 * nnInv 0 0) + R i 2 * R j 1 * (s.nn 2 0 * nnInv 0 1) + R i 2 * R j 2 * (s.nn 2 0 * nnInv 0 2)) * h00
+      + (R i 0 * R j 0 * (s.nn 0 1 * nnInv 1 0) + R i 0 * R j 1 * (s.nn 0 1 * nnInv 1 1) + R i 0 * R j 2 * (s.nn 0 1 * nnInv 1 2)
+        + R i 1 * R j 0 * (s.nn 1 1 * nnInv 1 0) + R i 1 * R j 1 * (s.nn 1 1 * nnInv 1 1) + R i 1 * R j 2 * (s.nn 1 1 * nnInv 1 2)
+        + R i 2 * R j 0 * (s.nn 2 1 * nnInv 1 0) + R i 2 * R j 1 * (s.nn 2 1 * nnInv 1 1) + R i 2 * R j 2 * (s.nn 2 1 * nnInv 1 2)) * h11
+      + (R i 0 * R j 0 * (s.nn 0 2 * nnInv 2 0) + R i 0 * R j 1 * (s.nn 0 2 * nnInv 2 1) + R i 0 * R j 2 * (s.nn 0 2 * nnInv 2 2)
+        + R i 1 * R j 0 * (s.nn 1 2 * nnInv 2 0) + R i 1 * R j 1 * (s.nn 1 2 * nnInv 2 1) + R i 1 * R j 2 * (s.nn 1 2 * nnInv 2 2)
+        + R i 2 * R j 0 * (s.nn 2 2 * nnInv 2 0) + R i 2 * R j 1 * (s.nn 2 2 * nnInv 2 1) + R i 2 * R j 2 * (s.nn 2 2 * nnInv 2 2)) * h22
+      + (R i 0 * R j 0 * (s.nn 0 0 * nnInv 1 0 + s.nn 0 1 * nnInv 0 0) + R i 0 * R j 1 * (s.nn 0 0 * nnInv 1 1 + s.nn 0 1 * nnInv 0 1)
+        + R i 0 * R j 2 * (s.nn 0 0 * nnInv 1 2 + s.nn 0 1 * nnInv 0 2)
+        + R i 1 * R j 0 * (s.nn 1 0 * nnInv 1 0 + s.nn 1 1 * nnInv 0 0) + R i 1 * R j 1 * (s.nn 1 0 * nnInv 1 1 + s.nn 1 1 * nnInv 0 1)
+        + R i 1 * R j 2 * (s.nn 1 0 * nnInv 1 2 + s.nn 1 1 * nnInv 0 2)
+        + R i 2 * R j 0 * (s.nn 2 0 * nnInv 1 0 + s.nn 2 1 * nnInv 0 0) + R i 2 * R j 1 * (s.nn 2 0 * nnInv 1 1 + s.nn 2 1 * nnInv 0 1)
+        + R i 2 * R j 2 * (s.nn 2 0 * nnInv 1 2 + s.nn 2 1 * nnInv 0 2)) * h01
+      + (R i 0 * R j 0 * (s.nn 0 0 * nnInv 2 0 + s.nn 0 2 * nnInv 0 0) + R i 0 * R j 1 * (s.nn 0 0 * nnInv 2 1 + s.nn 0 2 * nnInv 0 1)
+        + R i 0 * R j 2 * (s.nn 0 0 * nnInv 2 2 + s.nn 0 2 * nnInv 0 2)
+        + R i 1 * R j 0 * (s.nn 1 0 * nnInv 2 0 + s.nn 1 2 * nnInv 0 0) + R i 1 * R j 1 * (s.nn 1 0 * nnInv 2 1 + s.nn 1 2 * nnInv 0 1)
+        + R i 1 * R j 2 * (s.nn 1 0 * nnInv 2 2 + s.nn 1 2 * nnInv 0 2)
+        + R i 2 * R j 0 * (s.nn 2 0 * nnInv 2 0 + s.nn 2 2 * nnInv 0 0) + R i 2 * R j 1 * (s.nn 2 0 * nnInv 2 1 + s.nn 2 2 * nnInv 0 1)
+        + R i 2 * R j 2 * (s.nn 2 0 * nnInv 2 2 + s.nn 2 2 * nnInv 0 2)) * h02
+      + (R i 0 * R j 0 * (s.nn 0 1 * nnInv 2 0 + s.nn 0 2 * nnInv 1 0) + R i 0 * R j 1 * (s.nn 0 1 * nnInv 2 1 + s.nn 0 2 * nnInv 1 1)
+        + R i 0 * R j 2 * (s.nn 0 1 * nnInv 2 2 + s.nn 0 2 * nnInv 1 2)
+        + R i 1 * R j 0 * (s.nn 1 1 * nnInv 2 0 + s.nn 1 2 * nnInv 1 0) + R i 1 * R j 1 * (s.nn 1 1 * nnInv 2 1 + s.nn 1 2 * nnInv 1 1)
+        + R i 1 * R j 2 * (s.nn 1 1 * nnInv 2 2 + s.nn 1 2 * nnInv 1 2)
+        + R i 2 * R j 0 * (s.nn 2 1 * nnInv 2 0 + s.nn 2 2 * nnInv 1 0) + R i 2 * R j 1 * (s.nn 2 1 * nnInv 2 1 + s.nn 2 2 * nnInv 1 1)
+        + R i 2 * R j 2 * (s.nn 2 1 * nnInv 2 2 + s.nn 2 2 * nnInv 1 2)) * h12
+  rw [e]
+  have := h' i j
+  simp only [rotMat, sum3, hinv] at this ⊢
+  simp only [kron] at this ⊢
+  simpa using this
+
+/-- the fields are covariant: at the rotated point the displacement is the rotated vector, strain and stress the
+    rotated tensors (`ln ηₐ` and `1/ηₐ` are invariant because `ηₐ` is, `eta_rot`). -/
+theorem fields_covariant (h : Orth R) (pi I : F) (s : Setup F) (μ : Fin 6 → Mode F) (k : Fin 6 → F) (x : Vec F) :
+    (∀ a, eta (rotSetup R s) (rotMode R (μ a)) (rotVec R x) = eta s (μ a) x)
+    ∧ (∀ lnη i, dispAt pi I (rotSetup R s) (fun a => rotMode R (μ a)) k lnη i = rotVec R (dispAt pi I s μ k lnη) i)
+    ∧ (∀ i j, strainAt pi I (rotSetup R s) (fun a => rotMode R (μ a)) k (rotVec R x) i j
+          = rotMat R (strainAt pi I s μ k x) i j)
+    ∧ (∀ i j, stressAt pi I (rotSetup R s) (fun a => rotMode R (μ a)) k (rotVec R x) i j
+          = rotMat R (stressAt pi I s μ k x) i j)
+    ∧ ∀ i, dispJump pi I (rotSetup R s) (fun a => rotMode R (μ a)) k i = rotVec R (dispJump pi I s μ k) i := by
+  have hd : ∀ lnη i, dispAt pi I (rotSetup R s) (fun a => rotMode R (μ a)) k lnη i
+      = rotVec R (dispAt pi I s μ k lnη) i := by
+    intro lnη i
+    simp only [dispAt, dispCoef_rot h]
+    simp only [rotVec, matVec, sum3, sum6, dispAt]
+    ring
+  refine ⟨fun a => eta_rot h s (μ a) x, hd, ?_, ?_, fun i => hd _ i⟩
+  · intro i j
+    simp only [strainAt, strainCoef_rot h, eta_rot h]
+    simp only [rotMat, sum3, sum6, strainAt]
+    ring
+  · intro i j
+    simp only [stressAt, stressCoef_rot h, eta_rot h]
+    simp only [rotMat, sum3, sum6, stressAt]
+    ring
+
+/-- the energy coefficients are covariant: `K' = R K Rᵀ`, the normalisation factors `kₐ` do not change, and the
+    scalars `K_coeff`, `preln` of any tensor rotated together with the Burgers vector are invariant. -/
+theorem K_covariant (h : Orth R) (I : F) (μ : Fin 6 → Mode F) (k : Fin 6 → F) :
+    (∀ i j, kTensor I (fun a => rotMode R (μ a)) k i j = rotMat R (kTensor I μ k) i j)
+    ∧ (∀ a, kOf (rotMode R (μ a)) = kOf (μ a))
+    ∧ (∀ (K : Mat F) (b : Vec F), kCoeff (rotMat R K) (rotVec R b) = kCoeff K b)
+    ∧ ∀ (pi : F) (K : Mat F) (b : Vec F), preln pi (rotMat R K) (rotVec R b) = preln pi K b := by
+  have q : ∀ (K : Mat F) (b : Vec F), dot (rotVec R b) (matVec (rotMat R K) (rotVec R b)) = dot b (matVec K b) := by
+    intro K b
+    have e : ∀ i, matVec (rotMat R K) (rotVec R b) i = rotVec R (matVec K b) i :=
+      matVec_rot h K _ b _ (fun _ _ => rfl) (fun _ => rfl)
+    have : dot (rotVec R b) (matVec (rotMat R K) (rotVec R b)) = dot (rotVec R b) (rotVec R (matVec K b)) := by
+      simp only [dot, sum3, e]
+    rw [this, dot_rot h]
+  refine ⟨kTensor_rot h I μ k, fun a => kOf_rot h (μ a), fun K b => ?_, fun pi K b => ?_⟩
+  · simp only [kCoeff, q, dot_rot h]
+  · simp only [preln, q]
+
+example : Orth (F := ℚ) (fun i j => if (i, j) = (0, 1) then -1 else if (i, j) = (1, 0) ∨ (i, j) = (2, 2) then 1 else 0) := by
+  intro a b; fin_cases a <;> fin_cases b <;> simp [sum3, kron]
+
+end covariance
+
 /-! ### isotropic closed form (definitions generated from the Python source on every run) -/
 section iso
 variable {K : Type} [Field K] [CharZero K]
@@ -229,6 +344,148 @@ theorem iso_stress_is_hooke (x y nu mu b_e b_s pi : K)
 
 end iso
 
+/-! ### independence of the eigen-solver's normalisation -/
+section scale
+variable {F : Type} [Field F] [CharZero F]
+
+/-- a mode with its eigenvector rescaled (`numpy.linalg.eig` fixes the scale only by convention). -/
+def scaleMode (c : F) (μ : Mode F) : Mode F := ⟨μ.p, fun i => c * μ.A i, fun i => c * μ.L i⟩
+
+theorem kOf_scale (c : F) (hc : c ≠ 0) (μ : Mode F) (hAL : dot μ.A μ.L ≠ 0) :
+    kOf (scaleMode c μ) = kOf μ / (c * c) := by
+  simp only [kOf, scaleMode, dot, sum3, Nat.cast_ofNat, Nat.cast_one] at *
+  field_simp
+
+/-- the field coefficients and the summands of `K_tensor` do not depend on the scale of the eigenvectors
+    (with `k` computed from them as the code does). -/
+theorem scale_invariant (pi I : F) (s : Setup F) (μ : Fin 6 → Mode F) (c : Fin 6 → F) (hc : ∀ a, c a ≠ 0)
+    (hAL : ∀ a, dot (μ a).A (μ a).L ≠ 0) (a : Fin 6) :
+    (∀ i, dispCoef pi I s (fun a => scaleMode (c a) (μ a)) (fun a => kOf (scaleMode (c a) (μ a))) a i
+        = dispCoef pi I s μ (fun a => kOf (μ a)) a i)
+    ∧ (∀ i j, strainCoef pi I s (fun a => scaleMode (c a) (μ a)) (fun a => kOf (scaleMode (c a) (μ a))) a i j
+        = strainCoef pi I s μ (fun a => kOf (μ a)) a i j)
+    ∧ (∀ i j, stressCoef pi I s (fun a => scaleMode (c a) (μ a)) (fun a => kOf (scaleMode (c a) (μ a))) a i j
+        = stressCoef pi I s μ (fun a => kOf (μ a)) a i j)
+    ∧ ∀ i j, kOf (scaleMode (c a) (μ a)) * (scaleMode (c a) (μ a)).L i * (scaleMode (c a) (μ a)).L j
+        = kOf (μ a) * (μ a).L i * (μ a).L j := by
+  have hk := kOf_scale (c a) (hc a) (μ a) (hAL a)
+  have hca := hc a
+  refine ⟨fun i => ?_, fun i j => ?_, fun i j => ?_, fun i j => ?_⟩
+  · simp only [dispCoef, kLb, hk]
+    simp only [scaleMode, dot, sum3, mpn]
+    field_simp
+  · simp only [strainCoef, kLb, hk]
+    simp only [scaleMode, dot, sum3, mpn]
+    field_simp
+  · simp only [stressCoef, kLb, hk]
+    simp only [scaleMode, dot, sum3, mpn]
+    field_simp
+  · rw [hk]; simp only [scaleMode]; field_simp
+end scale
+
+/-! ### isotropic closed form, continued: symmetry, 1/r, Burgers closure, energy-coefficient tensor -/
+section iso2
+variable {K : Type} [Field K] [CharZero K]
+
+/-- the generated local strain and stress tensors are symmetric. -/
+theorem iso_symmetric (x y nu mu b_e b_s pi : K) (i j : Fin 3) :
+    isoStrain x y nu b_e b_s pi i j = isoStrain x y nu b_e b_s pi j i
+    ∧ isoStress x y nu mu b_e b_s pi i j = isoStress x y nu mu b_e b_s pi j i := by
+  fin_cases i <;> fin_cases j <;>
+    simp [isoStress, isoStrain, isoStress_0_0, isoStress_0_1, isoStress_0_2, isoStress_1_0, isoStress_1_1,
+      isoStress_1_2, isoStress_2_0, isoStress_2_1, isoStress_2_2, isoStrain_0_0, isoStrain_0_1, isoStrain_0_2,
+      isoStrain_1_0, isoStrain_1_1, isoStrain_1_2, isoStrain_2_0, isoStrain_2_1, isoStrain_2_2]
+
+/-- isotropic strain and stress are homogeneous of degree −1 in the in-plane position. -/
+theorem iso_falls_as_inv_r (x y nu mu b_e b_s pi t : K) (ht : t ≠ 0) (hr : x * x + y * y ≠ 0) (i j : Fin 3) :
+    isoStrain (t * x) (t * y) nu b_e b_s pi i j = isoStrain x y nu b_e b_s pi i j / t
+    ∧ isoStress (t * x) (t * y) nu mu b_e b_s pi i j = isoStress x y nu mu b_e b_s pi i j / t := by
+  have hr' : x ^ 2 + y ^ 2 ≠ 0 := by simpa [pow_two] using hr
+  have e : (t * x) * (t * x) + (t * y) * (t * y) = t * t * (x * x + y * y) := by ring
+  constructor <;> fin_cases i <;> fin_cases j <;>
+    simp [isoStress, isoStrain, isoStress_0_0, isoStress_0_1, isoStress_0_2, isoStress_1_0, isoStress_1_1,
+      isoStress_1_2, isoStress_2_0, isoStress_2_1, isoStress_2_2, isoStrain_0_0, isoStrain_0_1, isoStrain_0_2,
+      isoStrain_1_0, isoStrain_1_1, isoStrain_1_2, isoStrain_2_0, isoStrain_2_1, isoStrain_2_2, e] <;>
+    (try field_simp)
+end iso2
+
+section iso3
+variable {K : Type} [Field K] [CharZero K]
+
+/-- **isotropic Burgers closure**: when `theta` goes once around the line (`θ ↦ θ + 2π`, everything else
+    single-valued) the coded displacement changes by exactly `b`, for an orthonormal frame and a Burgers vector in
+    the slip plane (`b·n = 0`, the case the isotropic solver is for). -/
+theorem iso_burgers_jump (log : K → K) (pi θ : K) (s : IsoSetup K) (pos : Vec K) (hpi : pi ≠ 0)
+    (hm : dot s.m s.m = 1) (hn : dot s.n s.n = 1) (hmn : dot s.m s.n = 0) (hb : dot s.b s.n = 0) (c : Fin 3) :
+    isoDisplacement log pi (θ + 2 * pi) s pos c - isoDisplacement log pi θ s pos c = s.b c := by
+  have fr := frame_resolution s.m s.n s.b hm hn hmn c
+  rw [hb] at fr
+  have e : isoDisplacement log pi (θ + 2 * pi) s pos c - isoDisplacement log pi θ s pos c
+      = dot s.b s.m * s.m c + dot s.b (cross s.m s.n) * cross s.m s.n c := by
+    simp only [isoDisplacement, isoDispLab, isoDisp_m, isoDisp_n, isoDisp_ξ, IsoSetup.be, IsoSetup.bs, IsoSetup.ξ,
+      Nat.cast_ofNat, Nat.cast_one]
+    field_simp
+    ring
+  rw [e, fr]; ring
+
+/-- without the in-plane restriction the jump is the in-plane part of `b`: the component along `n` is ignored
+    by the isotropic solver. -/
+theorem iso_jump_general (log : K → K) (pi θ : K) (s : IsoSetup K) (pos : Vec K) (hpi : pi ≠ 0) (c : Fin 3) :
+    isoDisplacement log pi (θ + 2 * pi) s pos c - isoDisplacement log pi θ s pos c
+      = s.be * s.m c + s.bs * s.ξ c := by
+  simp only [isoDisplacement, isoDispLab, isoDisp_m, isoDisp_n, isoDisp_ξ, Nat.cast_ofNat, Nat.cast_one]
+  field_simp
+  ring
+end iso3
+
+section isoK
+variable {K : Type} [Field K] [LinearOrder K] [IsStrictOrderedRing K]
+
+theorem iso_K_symm (s : IsoSetup K) (a b : Fin 3) : isoKTensor s a b = isoKTensor s b a := by
+  simp only [isoKTensor]; ring
+
+/-- the isotropic energy-coefficient tensor is positive-definite for `μ > 0`, `ν < 1` and an orthonormal frame. -/
+theorem iso_K_posdef (s : IsoSetup K) (hmu : 0 < s.mu) (hnu : s.nu < 1)
+    (hm : dot s.m s.m = 1) (hn : dot s.n s.n = 1) (hmn : dot s.m s.n = 0) (v : Vec K) (hv : ∃ i, v i ≠ 0) :
+    0 < dot v (matVec (isoKTensor s) v) := by
+  have hke : 0 < isoKe s.mu s.nu := by
+    simp only [isoKe, Nat.cast_one]; exact div_pos hmu (by linarith)
+  have hks : 0 < isoKs s.mu s.nu := by simpa [isoKs] using hmu
+  set a := dot v s.m with ha
+  set b := dot v s.n with hb
+  set c := dot v (cross s.m s.n) with hc
+  have hvv : dot v v = a * a + b * b + c * c := by
+    have f0 := frame_resolution s.m s.n v hm hn hmn 0
+    have f1 := frame_resolution s.m s.n v hm hn hmn 1
+    have f2 := frame_resolution s.m s.n v hm hn hmn 2
+    rw [← ha, ← hb, ← hc] at f0 f1 f2
+    have : dot v v = v 0 * v 0 + v 1 * v 1 + v 2 * v 2 := by simp only [dot, sum3]
+    rw [this]
+    have ea : a = v 0 * s.m 0 + v 1 * s.m 1 + v 2 * s.m 2 := by simp only [ha, dot, sum3]
+    have eb : b = v 0 * s.n 0 + v 1 * s.n 1 + v 2 * s.n 2 := by simp only [hb, dot, sum3]
+    have ec : c = v 0 * cross s.m s.n 0 + v 1 * cross s.m s.n 1 + v 2 * cross s.m s.n 2 := by simp only [hc, dot, sum3]
+    linear_combination v 0 * f0 + v 1 * f1 + v 2 * f2 - a * ea - b * eb - c * ec
+  have hpos : 0 < dot v v := by
+    obtain ⟨i, hi⟩ := hv
+    have key : ∀ i, v i * v i ≤ dot v v := by
+      intro i
+      simp only [dot, sum3]
+      fin_cases i <;> simp <;> nlinarith [mul_self_nonneg (v 0), mul_self_nonneg (v 1), mul_self_nonneg (v 2)]
+    exact lt_of_lt_of_le (mul_self_pos.2 hi) (key i)
+  have e : dot v (matVec (isoKTensor s) v)
+      = isoKe s.mu s.nu * (a * a) + isoKe s.mu s.nu * (b * b) + isoKs s.mu s.nu * (c * c) := by
+    simp only [ha, hb, hc, dot, matVec, isoKTensor, sum3, IsoSetup.ξ]; ring
+  rw [e]
+  rw [hvv] at hpos
+  set k0 := min (isoKe s.mu s.nu) (isoKs s.mu s.nu) with hk0
+  have h1 : k0 ≤ isoKe s.mu s.nu := min_le_left _ _
+  have h2 : k0 ≤ isoKs s.mu s.nu := min_le_right _ _
+  have hk0pos : 0 < k0 := lt_min hke hks
+  have := mul_pos hk0pos hpos
+  nlinarith [mul_nonneg (sub_nonneg.2 h1) (mul_self_nonneg a), mul_nonneg (sub_nonneg.2 h1) (mul_self_nonneg b),
+    mul_nonneg (sub_nonneg.2 h2) (mul_self_nonneg c)]
+end isoK
+
 /-! ### non-vacuity: a concrete medium, frame and mode over `Cx ℚ` meeting the hypotheses -/
 
 /-- isotropic test medium `C11 = 3, C12 = 1, C44 = 1`, frame `m = x, n = y`, screw Burgers vector. -/
@@ -251,5 +508,19 @@ example : ConjPairs (K := ℚ) (fun a => if a.val % 2 = 0 then exMode else conjM
   exact ⟨rfl, rfl, rfl⟩
 example : isoStress (K := ℚ) 1 2 (1/4) 1 1 1 3 0 0 = -28 / 225 := by
   norm_num [isoStress, isoStress_0_0]
+example : dot exMode.A exMode.L ≠ 0 := by decide +kernel
+/-- the rotation by 90° about z used for the covariance examples satisfies `R Rᵀ = 1` as well. -/
+example : ∀ i j, (sum3 fun g => (fun (i j : Fin 3) => if (i, j) = (0, 1) then (-1 : ℚ) else
+    if (i, j) = (1, 0) ∨ (i, j) = (2, 2) then 1 else 0) i g * (fun (i j : Fin 3) => if (i, j) = (0, 1) then (-1 : ℚ) else
+    if (i, j) = (1, 0) ∨ (i, j) = (2, 2) then 1 else 0) j g) = kron i j := by
+  intro a b; fin_cases a <;> fin_cases b <;> simp [sum3, kron]
+/-- an isotropic setup meeting the hypotheses of `iso_burgers_jump` and `iso_K_posdef`:
+    `m = x`, `n = y`, mixed Burgers vector in the slip plane, `μ = 1`, `ν = 1/4`. -/
+def exIso : IsoSetup ℚ :=
+  ⟨fun i => if i = 0 then 1 else 0, fun i => if i = 1 then 1 else 0, fun i => if i = 1 then 0 else 1, 1, 1/4⟩
+example : dot exIso.m exIso.m = 1 ∧ dot exIso.n exIso.n = 1 ∧ dot exIso.m exIso.n = 0 ∧ dot exIso.b exIso.n = 0
+    ∧ 0 < exIso.mu ∧ exIso.nu < 1 := by
+  decide +kernel
+example : (2 : ℚ) ≠ 0 ∧ (1 : ℚ) * 1 + 2 * 2 ≠ 0 := by norm_num
 
 end Atomman.C12
